@@ -172,6 +172,10 @@ bool Instance::parse_pretend_valid_expr(const char* expr) {
         }
         p = c = c + (*c != 0);
     }
+    if (got_sig) {
+        fprintf(stderr, "parse error (missing pubkey after signature)\n");
+        return false;
+    }
     return true;
 }
 
